@@ -206,9 +206,36 @@ pub fn run(ctx: &Ctx) -> i32 {
             }
         }
     });
+    // large valid streams: many buffer refills, documents straddling 8 KiB boundaries
+    let n_large = ctx.size(64, 1500);
+    let large = crate::par::run(n_large, 1, |i, acc| {
+        let mut rng = Rng::derive(seed, 0xc02b, i as u64);
+        let f = [Fmt::Json, Fmt::Msgpack, Fmt::Yaml][i % 3];
+        let mut feats = crate::spell::Feats::default();
+        let mut cl = crate::gen::Classes::default();
+        let n_docs = *rng.pick(&[50usize, 300, 1500]);
+        let o = GenOpts { max_depth: 3, max_width: 4, ..GenOpts::common() };
+        let (bytes, _) = corpus::valid_stream(f, n_docs, &mut rng, &mut feats, &mut cl, &o);
+        if bytes.len() >= 2 << 20 {
+            return;
+        }
+        acc.count("class_valid_large");
+        acc.max("largest_input_bytes", bytes.len() as u64);
+        acc.distinct(&bytes);
+        let to = ALL[(i / 3) % 4];
+        let scheds = [Sched::All, Sched::Fixed(8191), Sched::Fixed(8192), Sched::Fixed(8193), Sched::Fixed(4096), Sched::Random(rng.next(), 20000), Sched::Fixed(13)];
+        for from in [Some(f), None] {
+            let s = run_slice(&bytes, from, to);
+            for sc in &scheds {
+                compare(&bytes, from, to, sc, "valid_large", &s, acc);
+            }
+        }
+    });
+    let mut acc = acc;
+    acc.merge(large);
     let rule = format!(
-        "{} mixed corpus inputs (valid single/multi-document streams of every format, mutants, splices, seeds, random bytes/tokens) x relevant source selections x 4 targets x schedules [all, one, fixed(n), 2 random, boundary cuts], plus EVERY token sequence of length 1..={} over each format's alphabet x [own format, detect] x 2 targets x [all, one]; each evaluation is one (slice run, reader run) pair; distinct non-trivial = distinct non-empty input byte strings",
-        n_mixed, max_tok
+        "{} mixed corpus inputs (valid single/multi-document streams of every format, mutants, splices, seeds, random bytes/tokens) x relevant source selections x 4 targets x schedules [all, one, fixed(n), 2 random, boundary cuts], plus EVERY token sequence of length 1..={} over each format's alphabet x [own format, detect] x 2 targets x [all, one], plus {} large valid streams (50-1500 documents, up to 2 MiB) under 7 schedules incl. fixed(8191/8192/8193); each evaluation is one (slice run, reader run) pair; distinct non-trivial = distinct non-empty input byte strings",
+        n_mixed, max_tok, n_large
     );
     let mut extra = serde_json::Map::new();
     extra.insert("token_sequences_exhaustive_up_to_length".into(), json!(max_tok));
